@@ -90,7 +90,7 @@ pub fn gen_stream(r: &mut Rng, depth: usize) -> Stream {
 
 /// random well-formed document: sparse ids, non-zero generations, all kinds, any version / binary mark
 pub fn gen_doc(r: &mut Rng) -> Document {
-    let versions: &[&str] = &["1.0", "1.4", "1.5", "1.7", "2.0", "", "1.7 x", "9.9\u{e9}"];
+    let versions: &[&str] = &["1.0", "1.4", "1.5", "1.7", "2.0", "", "1.7 x", "9.9\u{e9}", "1.7 ", "2.0\t", " 1.4", "1.6  \t ", "%%EOF", "1.4 startxref"];
     let mut doc = Document::with_version(*r.pick(versions));
     doc.binary_mark = match r.below(4) { 0 => vec![], 1 => vec![0xe2, 0xe3, 0xcf, 0xd3], _ => (0..r.usize(8)).map(|_| 0x80 | r.byte()).collect() };
     let n = r.usize(12);
